@@ -665,9 +665,30 @@ def call_with_history(fn, ctx, params):
             if "_real_t" in ov:
                 ctx.real_t = np_real_t(ov.pop("_real_t"))
             ctx.discard = True
+            saved_hooks = (S.HOOKS.decide_bool, S.HOOKS.decide_int)
+            if ctx.sym:
+                # branches of the earlier run are not forked: any one feasible path of it is a valid history
+                def one_bool(cond):
+                    r = smt.check_sat(ctx.hyps + [cond], timeout_ms=10000, tag="history:branch", want_model=False)
+                    val = r.status == "sat"
+                    ctx.hyps.append(cond if val else S.Not(cond))
+                    return val
+
+                def one_int(term):
+                    r = smt.check_sat(ctx.hyps + [S.And(S._cmp("le", S.const(-8), term), S._cmp("le", term, S.const(8)))], timeout_ms=10000, tag="history:int")
+                    if r.status != "sat":
+                        r = smt.check_sat(ctx.hyps, timeout_ms=10000, tag="history:int")
+                    env = {v: (r.model or {}).get(v, Fraction(0)) for v in S.free_vars([term])}
+                    val = S.evaluate_exact([term], env)[term.hid]
+                    v = int(val // 1)
+                    ctx.hyps.append(S._cmp("eq", term, S.const(v)))
+                    return v
+
+                S.HOOKS.decide_bool, S.HOOKS.decide_int = one_bool, one_int
             try:
                 fn(ctx, **{**params, **ov})
             finally:
+                S.HOOKS.decide_bool, S.HOOKS.decide_int = saved_hooks
                 ctx.discard = False
                 ctx.real_t = saved_rt
                 ctx.hyps[:] = saved_hyps
